@@ -224,21 +224,32 @@ func opCompat(g *G) (interface{}, []uint64, int, interface{}) {
 // cornerPair: hand-shaped gene lists (sorted by innovation number): empty overlap, interleaved disjoint genes,
 // long excess tails, prefix, empty genome
 func cornerPair(g *G) (*genetics.Genome, *genetics.Genome) {
+	varyEnds := g.chance(0.4)
 	mk := func(inns []int64) *genetics.Genome {
 		tr := neat.NewTrait()
 		tr.Id = 1
 		n1 := network.NewSensorNode(1, false)
 		n2 := network.NewNNode(2, network.OutputNeuron)
+		n3 := network.NewNNode(3, network.HiddenNeuron)
+		n4 := network.NewNNode(4, network.HiddenNeuron)
+		srcs := []*network.NNode{n1, n3, n4, n2}
+		dsts := []*network.NNode{n2, n3, n4}
 		genes := make([]*genetics.Gene, 0)
 		for _, inn := range inns {
 			w := (g.f64() - 0.5) * 8
-			gn := genetics.NewGeneWithTrait(tr, w, n1, n2, false, inn, w)
+			from, to, rec := n1, n2, false
+			if varyEnds {
+				// the same innovation number may stand for different connections in the two genomes (hand-built /
+				// file-loaded genomes of different lineages): the distance is defined by innovation numbers only
+				from, to, rec = srcs[g.intn(len(srcs))], dsts[g.intn(len(dsts))], g.chance(0.3)
+			}
+			gn := genetics.NewGeneWithTrait(tr, w, from, to, rec, inn, w)
 			if g.chance(0.3) {
 				gn.MutationNum = (g.f64() - 0.5) * 8
 			}
 			genes = append(genes, gn)
 		}
-		return genetics.NewGenome(1, []*neat.Trait{tr}, []*network.NNode{n1, n2}, genes)
+		return genetics.NewGenome(1, []*neat.Trait{tr}, []*network.NNode{n1, n2, n3, n4}, genes)
 	}
 	seq := func(from, n, step int) []int64 {
 		r := make([]int64, 0)
